@@ -138,18 +138,17 @@ Qed.
 
 (* ------------------------------------------------------------------ init *)
 Lemma init_words_ok n : forall i prev, Forall word_ok (init_words n i prev).
-Proof. induction n; intros; simpl; constructor; [apply w32_lt | apply IHn]. Qed.
+Proof. induction n; intros; cbn [init_words]; constructor; [apply w32_lt | apply IHn]. Qed.
 
 Lemma to_lanes_ok l : Forall word_ok l -> Forall lane_ok (to_lanes l).
 Proof.
   assert (H : forall n (l : list N), (length l <= n)%nat -> Forall word_ok l -> Forall lane_ok (to_lanes l)).
-  { induction n; intros [|a [|b [|c [|d t]]]] Hl Hf; simpl; try constructor.
-    - simpl in Hl. lia.
-    - inversion Hf as [|? ? Ha H1]; inversion H1 as [|? ? Hb H2]; inversion H2 as [|? ? Hc H3];
-      inversion H3 as [|? ? Hd H4]; subst. repeat split; assumption.
-    - apply IHn. simpl in Hl. lia.
-      inversion Hf as [|? ? Ha H1]; inversion H1 as [|? ? Hb H2]; inversion H2 as [|? ? Hc H3];
-      inversion H3 as [|? ? Hd H4]; subst. assumption. }
+  { induction n; intros [|a [|b [|c [|d t]]]] Hl Hf; cbn [to_lanes]; try (constructor; fail);
+      cbn [length] in Hl; try lia.
+    repeat match goal with H : Forall _ (_ :: _) |- _ => inversion H; clear H; subst end.
+    constructor.
+    - repeat split; assumption.
+    - apply IHn; [lia | assumption]. }
   intros. eapply H; eauto.
 Qed.
 
@@ -173,20 +172,22 @@ Proof.
 Qed.
 
 (* ------------------------------------------------------------------ parity fold is linear over xor *)
-Lemma fold_par_lxor x y : fold_par (N.lxor x y) = N.lxor (fold_par x) (fold_par y).
+Definition pstep (k x : N) : N := N.lxor x (N.shiftr x k).
+Lemma pstep_lxor k a b : pstep k (N.lxor a b) = N.lxor (pstep k a) (pstep k b).
 Proof.
-  unfold fold_par.
-  assert (L : forall k a b, N.lxor (N.lxor a b) (N.shiftr (N.lxor a b) k) =
-                            N.lxor (N.lxor a (N.shiftr a k)) (N.lxor b (N.shiftr b k))).
-  { intros. rewrite N.shiftr_lxor. rewrite !N.lxor_assoc. f_equal.
-    rewrite <- !N.lxor_assoc. f_equal. apply N.lxor_comm. }
-  rewrite !L. apply land_lxor_distr_l.
+  unfold pstep. rewrite N.shiftr_lxor. rewrite !N.lxor_assoc. f_equal.
+  rewrite <- !N.lxor_assoc. f_equal. apply N.lxor_comm.
 Qed.
+Lemma fold_par_steps x : fold_par x = N.land (pstep 1 (pstep 2 (pstep 4 (pstep 8 (pstep 16 x))))) 1.
+Proof. reflexivity. Qed.
+Lemma fold_par_lxor x y : fold_par (N.lxor x y) = N.lxor (fold_par x) (fold_par y).
+Proof. rewrite !fold_par_steps, !pstep_lxor. apply land_lxor_distr_l. Qed.
 
 Lemma fold_par_bit x : fold_par x = 0 \/ fold_par x = 1.
 Proof.
   unfold fold_par.
   match goal with |- N.land ?t 1 = 0 \/ _ => generalize t end. intro t.
-  change 1 with (N.ones 1). rewrite N.land_ones. change (2 ^ 1) with 2.
-  pose proof (N.mod_lt t 2). lia.
+  replace (N.land t 1) with (t mod 2) by (symmetry; apply (N.land_ones t 1)).
+  assert (H : t mod 2 < 2) by (apply N.mod_lt; discriminate).
+  revert H. generalize (t mod 2). intros m H. lia.
 Qed.
